@@ -11,7 +11,13 @@ int bytes_to_dstring(char *out, const void *data, size_t size)
     for (; it != eit; ++it)
     {
         char c = *it;
-        if (igris_isprint(c))
+        if (*it == '\\')
+        {
+            *dst++ = '\\';
+            *dst++ = '\\';
+        }
+
+        else if (igris_isprint(c))
             *dst++ = *it;
 
         else if (*it == '\n')
@@ -24,12 +30,6 @@ int bytes_to_dstring(char *out, const void *data, size_t size)
         {
             *dst++ = '\\';
             *dst++ = 't';
-        }
-
-        else if (*it == '\\')
-        {
-            *dst++ = '\\';
-            *dst++ = '\\';
         }
 
         else
